@@ -7,12 +7,12 @@ HOOK_COMMITS = ["ca6d3b8", "a1d2aab"]
 # id -> (technique, level text, level note, design ref)
 CLAIMED = {
  "C03": ("bounded exhaustive product of file layouts x mutating operations on real files; byte-level physical-line oracle (no parser): common prefix/suffix of lines plus the edit shape allowed per operation class",
-         "For every (layout, operation) where the command succeeds, the bytes before and after are compared line by line: every original line must survive byte for byte (text and line ending) in order; additions must be one contiguous block; stop/switch may only replace the placeholder run by one token and append text to the entry's last line; pause --extend may only replace the duration token; a final unterminated line may only gain a line ending when lines follow it.",
+         "For every (layout, operation) where the command succeeds, the bytes before and after are compared line by line: every original line must survive byte for byte (text and line ending) in order; additions must be one contiguous block; stop/switch may only replace the placeholder run (the first run of question marks of the line) by one token and append text to the entry's last line; pause --extend may only replace the duration token; a final unterminated line may only gain a line ending when lines follow it.",
          "Trusted: the physical-line splitter and the per-class edit shapes (taken from the statement). Quick uses every 13th layout of the formatting product.",
          "DESIGN.md §4 C03"),
  "C05": ("bounded exhaustive product of valid and invalid files (every single fault-catalogue edit of 15 files) x 76 commands incl. failure-directed ones, all through the complete CLI with real exit status and real write path",
          "For every (file, command): exit 0 implies the file on disk parses without errors (klog and reference); exit != 0 implies identical bytes, an error message, and no other file in the directory; a panic is a violation. Multi-step commands whose second step fails are included.",
-         "Trusted: specmodel (lenient reading of klog's own don't-care zones). I/O faults and crash points are outside the property's quantifier.",
+         "Trusted: specmodel (lenient reading of klog's own don't-care zones). I/O faults and crash points are outside the property's quantifier. PAIRS: every pair of catalogue edits on different lines (176 k files; quick every 8th) x the same commands on the real context. ENV: one external change of the file (unparseable / record gone / record appended) before refresh 0, 1 or 2 of a running `klog pause`.",
          "DESIGN.md §4 C05"),
  "C11": ("bounded exhaustive product of per-record style combinations (incl. ties and whitespace-only lines) x commands x configurations; independent style inspector on raw bytes; determinism decided by exploring every map-iteration order within a deviation bound on the instrumented build",
          "For every (file, command, configuration): a valid command must succeed, the result must be valid, every inserted line's ending and indentation, every generated date separator, clock convention, dash spacing and placeholder length must be a style the target record exhibits, else one the other records use, else the default, unless an explicit value or configured preference applies. Determinism: a fixed stride of cases is re-executed under every map iteration order within the bound and must yield identical bytes.",
@@ -20,7 +20,7 @@ CLAIMED = {
          "DESIGN.md §4 C11"),
  "C17": ("exhaustive sweep of all 1440 clock minutes x day kinds x roundings x date selections x record layouts x {start, stop, switch} and total --now, against an independent rounding/shift/fallback model",
          "Every minute of the day is tried for every combination; the written time must denote exactly the rounded instant relative to the target record's date, stop's fallback must follow the documented rule, --now totals must equal the reference closing, and whenever the time is unrepresentable or a range cannot be closed the command must fail with a message and leave the file untouched - never crash, never write another time.",
-         "Trusted: cmdmodel.go (rounding: nearest multiple, ties up; shift by +-24h; representable range) and specmodel.CloseAt.",
+         "Trusted: cmdmodel.go (rounding: nearest multiple, ties up; shift by +-24h; representable range) and specmodel.CloseAt. Each --now case is followed by `today --now --follow` over refreshes at +0/+1/+61 minutes (also past midnight): every refresh shows the total of its own instant or refuses.",
          "DESIGN.md §4 C17"),
  "C04": ("explicit-state search over command histories (state = file bytes): all command sequences up to depth 3/4 over a 61-command alphabet from 15 initial files, plus all pause tick sequences; every transition compared with an abstract record-list model",
          "Every transition of the explored history graph executes the real command on a real file (first command and a fixed stride through the complete CLI, the rest through the command structs on the real context) and is compared with the abstract model applied to the reference reading of the file before: success/failure, failure leaves the bytes untouched, success yields exactly the predicted records (values, summaries, order, chronological position of new records) under the reference parser, and klog re-reads its own output.",
@@ -28,15 +28,15 @@ CLAIMED = {
          "DESIGN.md §4 C04"),
  "C12": ("bounded exhaustive enumeration of all ordered pairs/triples of calendar-boundary dates x aggregations x fill/diff x filters; report rows read back and compared with independent calendar bucketing (subset-sum identification of records)",
          "Each record carries a distinct power-of-two total, so a row's total identifies exactly which records landed in it. For every file x aggregation x flag combination the rows must be exactly the expected periods in chronological order, each with the total/should/diff of exactly the records whose date lies in that period by the independent calendar, filled rows empty, the grand total equal to the row sum and to `klog total`; `klog today` must split the same total into current and other records (with and without --now).",
-         "Trusted: specmodel calendar; the report table layout (fixed label columns, '=' ruler) used for reading rows back. `--fill` only for spans <= 800 days.",
+         "Trusted: specmodel calendar; the report table layout (fixed label columns, '=' ruler) used for reading rows back. `--fill` only for spans <= 800 days. --chart on every other document; the complete `today --diff [--now]` table and `total/report --now --entry-type T` for every EV document x 3 clocks.",
          "DESIGN.md §4 C12"),
  "C13": ("bounded exhaustive enumeration of filter-clause combinations (all date clauses around record dates, periods, relative shortcuts under many clocks, tag and entry-type queries, pairs and triples, sort) against an independent predicate",
          "Every clause combination over 6 base files runs through the complete CLI (`klog json`, real flag decoding) and the selected records/entries are compared field by field with the independent predicate applied to the reference denotation: exactly the matching records and entries, unchanged, in original order; --sort as a date-monotone permutation; combined clauses as intersections. The sort routine itself is run on all 2^13+2^14 two-date assignments of 13/14 records.",
-         "Trusted: specmodel parser, tag scanner and calendar. One lower/upper date bound at a time.",
+         "Trusted: specmodel parser, tag scanner and calendar. One lower/upper date bound at a time. BULK: 50 k (thorough 300 k) enumerated two-record documents x a 63-query matrix; TZ: relative shortcuts under local wall clocks around daylight-saving transitions in five zones (tzdata compiled in).",
          "DESIGN.md §4 C13"),
  "C18": ("exhaustive product documents x commands x styling configurations through the complete CLI; own SGR stripper; row-width check on every table",
          "For every (document, command line, configuration): the three ways of disabling styling give escape-free, identical output; every styled scheme's output equals it after removing SGR sequences (no other escape may remain); every row of the report/tags/today tables has the same number of visible characters.",
-         "Trusted: the SGR stripper. Inputs contain no ESC bytes (not in the quantifier).",
+         "Trusted: the SGR stripper. Inputs contain no ESC bytes (not in the quantifier). BULK families (command structs on the real context): every EV document of C06 and 12 k tag-table documents x 14 commands x 4 configurations.",
          "DESIGN.md §4 C18"),
  "C19": ("explicit-state model checking of the full bookmark-database state graph: every state built through the real CLI, every operation executed in every state, compared with a plain map; state canonicity checked on every transition",
          "The state (bookmarks.json) space is enumerated completely (64 states quick, 3125 thorough); in every state every set/unset/clear operation with every name spelling and target is executed through klog.Run and compared with the map model (result map read back with a strict JSON parser, failure = unchanged bytes + non-zero exit), list/info/@name resolution/default-bookmark resolution are compared on every state, and the bytes reached by (state, op) must equal those of the successor state built on its own shortest path.",
@@ -44,7 +44,7 @@ CLAIMED = {
          "DESIGN.md §4 C19"),
  "C02": ("bounded exhaustive enumeration of valid documents over an arithmetic value menu (all sequences of <=3 entries; two/three records; --now clock/date products) against an independent integer-minute evaluator",
          "Every document of the families is evaluated by klog (service.Total/ShouldTotalSum/Diff, per record and per entry; a fixed stride also through `klog total --diff --decimal`, `klog json` and `klog print --with-totals` via the complete CLI) and compared with the reference evaluator: shifted times, the 24:00 spellings, overlapping ranges, duplicate dates, open ranges with and without --now (refusal conditions included).",
-         "Trusted: specmodel parser/evaluator. Bounds: <=3 entries per record, <=3 records.",
+         "Trusted: specmodel parser/evaluator. Bounds: <=3 entries per record, <=3 records. Histories: `today --now --diff --follow` over three refreshes on one live context (clock advancing, file unchanged or swapped and back) must equal fresh one-shot runs.",
          "DESIGN.md §4 C02"),
  "C07": ("schedule-exhaustive DFS over a cooperative scheduler on the mechanically instrumented parallel parser (all interleavings for 2-3 workers with state pruning, preemption-bounded for 4-6), plus exhaustive inputs x worker counts against the serial parser",
          "Two legs. (1) Inputs x chunkings: ALL token strings up to the bound x EVERY worker count 1..len+2 (a chunk boundary at every byte offset, inside multi-byte characters and CRLF) compared with the serial parser on records, blocks, line numbers and errors; the CLI clause over NumCpus {1,2,3,8}. (2) Schedules: goinstr rewrites go/chan/WaitGroup of the current parallel.go to the vrt scheduler; a stateless DFS explores every interleaving of workers, closer and collector (unbounded with sound state-key pruning for n<=3 (quick) / n<=4 (thorough), preemption-bounded above), checking deadlock, send-on-closed, thread panics and result equality on every execution; the search must observe all n! delivery orders (vacuity guard).",
@@ -52,7 +52,7 @@ CLAIMED = {
          "DESIGN.md §4 C07"),
  "C08": ("exhaustive enumeration of all accepted texts among token strings / formatting product / byte-menu documents; block lines compared with an independent line splitter, per-block re-parse, no-op reconcile identity",
          "For every accepted text (serial and parallel with 2, 3 workers): the concatenated block lines equal the input byte for byte, overall line indices are consecutive from 0, every block has exactly one run of non-blank lines and re-parses to exactly its record, blank-only texts give no blocks, and a reconcile without steps returns the identical text.",
-         "Trusted: specmodel.SplitLines. 'Valid' = accepted by klog.",
+         "Trusted: specmodel.SplitLines. 'Valid' = accepted by klog's serial parser (the parallel parser must then accept it, too). The no-op write-back clause is also decided on real files through klog's own context (read - parse - reconcile nothing - write, 1 and 3 CPUs).",
          "DESIGN.md §4 C08"),
  "C10": ("exhaustive enumeration of single/double rule-violating edits at every line; error facts compared with an independent line splitter and the reference parser's first offending line; both renderings parsed back",
          "Every rejected text of the families: each error's line exists and is quoted exactly, position/length stay within the line, ascending order, first error on the first line where the reference grammar has no continuation, identical errors from the parallel parser; the terminal report and the JSON report are parsed back and must show the same numbers.",
@@ -64,7 +64,7 @@ CLAIMED = {
          "DESIGN.md §4 C14"),
  "C20": ("bounded exhaustive enumeration of valid/invalid documents and of ALL short strings over a JSON-hostile alphabet; output parsed by an own strict RFC 8259 parser and compared field by field with the reference denotation",
          "Every `klog json` output ({plain, --pretty, --sort asc/desc, --date}) must be one well-formed JSON document with exactly the documented keys, exactly one of records/errors non-null, every field equal to the reference denotation, the arithmetic relations holding, and for invalid input the error objects equal to the parser's errors and to the terminal report.",
-         "Trusted: specmodel.ParseJSON and specmodel.Parse. Invalid UTF-8 may only be coerced to U+FFFD.",
+         "Trusted: specmodel.ParseJSON and specmodel.Parse. Invalid UTF-8 may only be coerced to U+FFFD. Also: --tag / --entry-type variants, every ordered pair of 22 boundary time literals, `json --now` on 7200 clock-relative documents.",
          "DESIGN.md §4 C20"),
  "C06": ("exhaustive enumeration of ALL strings of <=k tokens over a 30-token hostile alphabet (and k+1 over a 16-token core), each run through the real serial and parallel parsers, all error renderers and every read-only command, in crash-isolated worker processes",
          "Totality is decided on a complete finite space: every string of at most 4 (quick) / 5 (thorough) tokens over an alphabet with one token per short-cut in the parser (dates, indentations, both line endings, lone CR, NBSP, invalid and truncated UTF-8, NUL, 20-digit and near-int64 numbers, every punctuation the grammar knows), plus long-line and hand-picked deep cases. Each is parsed serially and with 2 and 3 workers; the result shape is checked; every error accessor, the terminal and JSON error renderings are invoked; every accepted input runs through print/total/report(5 aggregations, fill, chart)/tags/today/json with two clock readings. A panic in a klog-started goroutine kills the worker and is attributed through a pre-written case marker, then confirmed by replay.",
@@ -72,10 +72,10 @@ CLAIMED = {
          "DESIGN.md §4 C06"),
  "C09": ("bounded exhaustive enumeration of valid documents (grammar, formatting and notation products); print output compared byte-wise with an independently rendered canonical form, re-parsed by reference and klog, printed again",
          "For every reference-valid document of the families (2.2 M in quick) the real serialiser's output must equal the canonical rendering computed independently from the reference denotation (so values, notation and layout are all decided), must re-parse to the same records under both parsers, and must be a fixed point. The notation sweep and every 64th case also go through `klog print --no-style` via the complete CLI.",
-         "Trusted: specmodel parser and the independent canonical renderer. Should-total compared by value; irregular dash spacing may normalise either way (the statement does not say).",
+         "Trusted: specmodel parser and the independent canonical renderer. Should-total compared by value; irregular dash spacing may normalise either way (the statement does not say). Known finding: a summary line ending in a carriage return cannot survive printing (KF-C09-summary-line-ends-in-CR).",
          "DESIGN.md §4 C09"),
  "C01": ("bounded exhaustive enumeration of documents from the spec grammar and of all single/double rule-violating edits, three-way compared (generator denotation = reference parser = klog)",
-         "Every document of the stated families (1-3 records x value menus, the full formatting product, every time/duration literal in a skeleton, every single and double edit from a 102-operator catalogue at every line) is parsed by the real parser and compared with an independent reference parser written from the specification: accept/reject and the full denotation (dates, should-totals, summaries, entry kinds, times with shifts and notation, durations with sign notation, dash spacing, placeholder length). The space is enumerated completely, not sampled.",
+         "Every document of the stated families (1-3 records x value menus, the full formatting product, every time/duration literal in a skeleton, every single and double edit from a 106-operator catalogue at every line) is parsed by the real serial parser and by the parallel parser with 2 and 3 workers, each and compared with an independent reference parser written from the specification: accept/reject and the full denotation (dates, should-totals, summaries, entry kinds, times with shifts and notation, durations with sign notation, dash spacing, placeholder length). The space is enumerated completely, not sampled.",
          "Trusted: specmodel.Parse (cross-checked against the generator's by-construction denotation on every grammar-derived document), don't-care zones listed in DESIGN §3.1, Go's Unicode tables. Bounds: <=3 records, <=3 entries per record, edit pairs on 14 (quick) / 60 (thorough) base documents.",
          "DESIGN.md §4 C01"),
  "C16": ("exhaustive finite-domain sweeps (all time strings, all time pairs, all time+duration sums, all date strings, all duration layouts) against the reference value grammar and integer arithmetic",
@@ -84,7 +84,7 @@ CLAIMED = {
          "DESIGN.md §4 C16"),
  "C15": ("exhaustive finite-domain sweep (all 3,652,425 dates, all period pattern strings) against an independent integer calendar",
          "Complete enumeration of the property's whole quantifier domain: every date 0000-01-01..9999-12-31 and every pattern string of the four shapes for all 10^4 years, each compared with an independent calendar model; bucket-hash injectivity is decided globally (distinct hashes = number of periods). Nothing is sampled, so within the stated domain this is a decision, not a test.",
-         "Trusted: specmodel calendar (cross-checked against Go's time package on every day in every run), the Go toolchain. Week periods at the ends of the representable range are expected clamped.",
+         "Trusted: specmodel calendar (cross-checked against Go's time package on every day in every run), the Go toolchain. Week periods at the ends of the representable range are expected clamped. Malformed patterns: shape near-misses plus every single-character substitution/insertion/deletion (15 hostile characters) on one pattern of each shape, all years.",
          "DESIGN.md §4 C15"),
 }
 
